@@ -483,7 +483,23 @@ def one_case(ctx, m, rng, np, i):
                 m.viol("wires.eqhash", f"{what}: result {real!r} differs from a freshly built Wires of its labels", "history:fresh")
 
 
+
+def _cap_per_mechanism(ctx, cap=3):
+    """Keep at most `cap` witnesses per (monitor, mechanism) so that a frequent finding cannot crowd out other mechanisms
+    (the bus keeps 40 witnesses per shard); totals stay available as counters."""
+    orig, seen = ctx.violation, {}
+
+    def violation(monitor, message, case=None, mech=None, observed=None, expected=None):
+        k = (monitor, mech)
+        seen[k] = seen.get(k, 0) + 1
+        ctx.count(f"violations:{mech}")
+        if seen[k] <= cap:
+            orig(monitor, message, case=case, mech=mech, observed=observed, expected=expected)
+    ctx.violation = violation
+
+
 def run(ctx):
+    _cap_per_mechanism(ctx)
     import numpy as np
     from pennylane.exceptions import WireError
     from pennylane.wires import Wires
